@@ -1361,23 +1361,31 @@ class Substitution(Rule):
             self.f = new_problem_body
 
         if e.is_integral():
+            # With descending bounds the interval lies below e.lower and above e.upper
+            descending = has_descending_bounds(e)
             if e.lower == expr.NEG_INF:
                 lower = limits.reduce_neg_inf_limit(var_subst, e.var, ctx.get_conds())
+            elif e.lower == expr.POS_INF:
+                lower = limits.reduce_inf_limit(var_subst, e.var, ctx.get_conds())
             else:
                 x = Var(e.var)
                 lower = self.var_subst
-                lower = limits.reduce_inf_limit(lower.subst(e.var, (1 / x) + e.lower), e.var, ctx.get_conds())
+                lower = limits.reduce_inf_limit(
+                    lower.subst(e.var, e.lower - (1 / x) if descending else (1 / x) + e.lower), e.var, ctx.get_conds())
                 lower = full_normalize(lower, ctx)
             if e.upper == expr.POS_INF:
                 upper = limits.reduce_inf_limit(var_subst, e.var, ctx.get_conds())
+            elif e.upper == expr.NEG_INF:
+                upper = limits.reduce_neg_inf_limit(var_subst, e.var, ctx.get_conds())
             else:
                 x = Var(e.var)
                 upper = self.var_subst
-                upper = limits.reduce_inf_limit(upper.subst(e.var, e.upper - (1 / x)), e.var, ctx.get_conds())
+                upper = limits.reduce_inf_limit(
+                    upper.subst(e.var, e.upper + (1 / x) if descending else e.upper - (1 / x)), e.var, ctx.get_conds())
                 upper = full_normalize(upper, ctx)
             if lower.is_evaluable() and upper.is_evaluable():
                 increasing = ctx2.get_conds().is_not_negative(dfx)
-                if (expr.eval_expr(lower) > expr.eval_expr(upper)) == increasing and lower != upper:
+                if (expr.eval_expr(lower) > expr.eval_expr(upper)) == (increasing != descending) and lower != upper:
                     raise AssertionError("Substitution: %s is not continuous and monotone on the interval" % var_subst)
             if lower.is_evaluable() and upper.is_evaluable() and expr.eval_expr(lower) > expr.eval_expr(upper):
                 return normalize(Integral(self.var_name, upper, lower, Op("-", self.f)), ctx.get_conds())
@@ -1387,6 +1395,19 @@ class Substitution(Rule):
             return normalize(IndefiniteIntegral(self.var_name, self.f, e.skolem_args), ctx.get_conds())
         else:
             raise TypeError
+
+
+def has_descending_bounds(e: Expr) -> bool:
+    """Whether the constant bounds of the integral e are in descending order
+    (INT x:[1,0]. f, as returned by SplitRegion for a point outside the interval).
+
+    """
+    if e.lower.is_evaluable() and e.upper.is_evaluable():
+        try:
+            return expr.eval_expr(e.lower) > expr.eval_expr(e.upper)
+        except (NotImplementedError, ZeroDivisionError, ValueError, TypeError):
+            return False
+    return False
 
 
 def full_normalize(e: Expr, ctx: Context) -> Expr:
